@@ -325,7 +325,11 @@ Proof.
         apply good_intro; [simpl; rewrite app_nil_r; isolve | | intros v Hv; inv Hv; simpl; isolve].
         intros e He; simpl in He; destruct He as [He|[]]; subst; reflexivity.
       * inv H. apply good_nil_val. simpl. isolve.
-    + destruct va; try (inv H; apply good_nil_err). simpl in H.
+    + destruct va; try (inv H; apply good_nil_err).
+      assert (Hsrc : run quirks_off w f (Some (w_safe w)) (VTupCons pkg (w_safe w) VTupNil) e = (r, l)
+                     \/ (r, l) = (Err, [])).
+      { destruct (src_arm r0) as [[|]|]; simpl in H; auto. }
+      clear H. destruct Hsrc as [H|H]; [|inv H; apply good_nil_err].
       assert (Hb : binds (VTupCons pkg (w_safe w) VTupNil) = true)
         by (unfold binds; simpl; rewrite String.eqb_refl; reflexivity).
       assert (Hi : incl (au (w_safe w)) (au (VTupCons pkg (w_safe w) VTupNil))) by (simpl; isolve).
@@ -334,6 +338,10 @@ Proof.
     + inv H. apply good_nil_val. simpl. isolve.
     + destruct (parse_cfg vf) as [[lo sc]|] eqn:P; [|inv H; apply good_nil_err].
       destruct va; try (inv H; apply good_nil_err).
+      assert (Hsrc : run quirks_off w f (vget pkg (ctx_env w lo sc)) (ctx_env w lo sc) e = (r, l)
+                     \/ (r, l) = (Err, [])).
+      { destruct (src_arm r0) as [[|]|]; simpl in H; auto. }
+      clear H. destruct Hsrc as [H|H]; [|inv H; apply good_nil_err].
       destruct (ctx_env_pkg lo sc) as [lib Hl]. rewrite Hl in H.
       assert (Hb : binds (ctx_env w lo sc) = true) by (unfold binds; rewrite Hl; reflexivity).
       assert (Hi : incl (au lib) (au (ctx_env w lo sc))) by (apply (vget_auth S F) in Hl; exact Hl).
@@ -534,7 +542,7 @@ Lemma q_evalvalue_full_scope_refuted : exists fuel s v log,
   run_safe only_evalvalue gen_world fuel s = (Val v, log) /\
   ~ incl (auth gen_S gen_F v) (auth gen_S gen_F (w_safe gen_world)).
 Proof.
-  exists 12%nat, (EApp (EDot (EDot EPkg "eval") "value") (EQuote os_file)), (VPlain CFile 1), [].
+  exists 12%nat, (EApp (EDot (EDot EPkg "eval") "value") (EQuote RString os_file)), (VPlain CFile 1), [].
   split; [vm_compute; reflexivity|].
   intros H. assert (Hin : In CFile (auth gen_S gen_F (w_safe gen_world))) by (apply H; simpl; auto).
   destruct gen_world_wf as [Hs _]. apply Hs in Hin. apply mem_In in Hin. vm_compute in Hin. discriminate.
@@ -586,7 +594,7 @@ Definition nv_lib : val := VTupCons "os" (VTupCons "file" (VPlain CFile 1) VTupN
 Definition nv_scope : val := VTupCons "f" (VClo VTupNil "x" (ETupCons "got" (EVar "x") ETupNil)) VTupNil.
 Definition nv_src : expr :=
   ETupCons "a" (EApp (EVar "f") os_file)
-  (ETupCons "b" (EApp (EDot (EDot EPkg "eval") "eval") (EQuote (EDot (EDot EPkg "str") "lower"))) ETupNil).
+  (ETupCons "b" (EApp (EDot (EDot EPkg "eval") "eval") (EQuote RBytes (EDot (EDot EPkg "str") "lower"))) ETupNil).
 
 Lemma nonvacuous :
   contextual quirks_on gen_world 20 (Some nv_lib) nv_scope nv_src =
@@ -598,4 +606,24 @@ Proof.
   split; [vm_compute; reflexivity|].
   eexists. split; [vm_compute; reflexivity|]. split; [vm_compute; auto|].
   apply subset_incl. vm_compute. reflexivity.
+Qed.
+
+(* ---------- every accepted representation of source text reaches the same evaluation ---------- *)
+Lemma source_representation_irrelevant : forall q w fuel r1 r2 s,
+  src_arm r1 <> None -> src_arm r2 <> None ->
+  apply q w fuel VEvalValue (VSrc r1 s) = apply q w fuel VEvalValue (VSrc r2 s) /\
+  forall cfg, apply q w fuel (VEvalWith cfg) (VSrc r1 s) = apply q w fuel (VEvalWith cfg) (VSrc r2 s).
+Proof.
+  intros q w fuel r1 r2 s H1 H2. destruct fuel; [split; reflexivity|].
+  destruct r1; simpl in H1; try congruence; destruct r2; simpl in H2; try congruence;
+    (split; [reflexivity | intros cfg; simpl; destruct (parse_cfg cfg) as [[? ?]|]; reflexivity]).
+Qed.
+
+Lemma non_source_refused : forall q w fuel r s,
+  src_arm r = None ->
+  apply q w (Datatypes.S fuel) VEvalValue (VSrc r s) = (Err, []) /\
+  forall cfg, apply q w (Datatypes.S fuel) (VEvalWith cfg) (VSrc r s) = (Err, []).
+Proof.
+  intros q w fuel r s H. simpl. rewrite H. split; [reflexivity|].
+  intros cfg. destruct (parse_cfg cfg) as [[? ?]|]; reflexivity.
 Qed.
